@@ -199,7 +199,7 @@ func bindValue(s *Summary, c *bindCase) {
 				binding.DisableValidator()
 			}
 			// the entry points: Auto picks the binder; the binder of the type itself; the binder's raw-data entry point
-			for _, entry := range []string{"Auto", "Bind", "raw"} {
+			for _, entry := range []string{"Auto", "Bind", "raw", "ctx", "ctxmust"} {
 				var req *http.Request
 				if media == "query" {
 					req = mkReq("GET", "/b?"+v.values().Encode(), "", "")
@@ -215,6 +215,30 @@ func bindValue(s *Summary, c *bindCase) {
 					err, pan = safeBind(func() error { return binding.Auto(req, &got) })
 				case media == "multipart/form-data":
 					continue
+				case entry == "ctx" || entry == "ctxmust":
+					// the methods of Context: BindForm / BindJSON / BindXML / ShouldBind(binder), and MustBind which panics with the error
+					rr := rux.New()
+					rr.Any("/b", func(cx *rux.Context) {
+						b := map[string]binding.Binder{"query": binding.Query, "application/x-www-form-urlencoded": binding.Form, "application/json": binding.JSON, "text/xml": binding.XML}[media]
+						switch {
+						case entry == "ctxmust":
+							defer func() {
+								if rec := recover(); rec != nil {
+									err = fmt.Errorf("MustBind panicked: %v", rec)
+								}
+							}()
+							cx.MustBind(&got, b)
+						case media == "application/x-www-form-urlencoded":
+							err = cx.BindForm(&got)
+						case media == "application/json":
+							err = cx.BindJSON(&got)
+						case media == "text/xml":
+							err = cx.BindXML(&got)
+						default:
+							err = cx.ShouldBind(&got, b)
+						}
+					})
+					_, pan = safeBind(func() error { rr.ServeHTTP(httptest.NewRecorder(), req); return nil })
 				case entry == "Bind":
 					b := map[string]binding.Binder{"query": binding.Query, "application/x-www-form-urlencoded": binding.Form, "application/json": binding.JSON, "text/xml": binding.XML}[media]
 					err, pan = safeBind(func() error { return b.Bind(req, &got) })
